@@ -175,5 +175,36 @@ def stale_polka_must_not_unlock():
     return s.steps
 
 
-ALL = {'lock_unlock': lock_unlock, 'relock_and_pol_proposal': relock_and_pol_proposal,
+def many_rounds_then_restart():
+    """Four rounds of height 1 fail with split votes (three timers per round and node: propose, prevote-wait, precommit-wait),
+    so that each node's WAL of the height holds more than ten timeouts; a real Start() of node 2 on a copy of its directory
+    (RealStartProbe, appended by the engine) must then replay all of them and come up where the stepped restart does."""
+    s = S().start()
+    for r in range(4):
+        x = H(r, r + 1) if r < 3 else H(0, 1)               # a block the Byzantine validator votes for (split, no majority)
+        if r < 3:
+            s.all_internal(r + 1)                            # the proposer's own proposal reaches only itself
+        for n in (1, 2, 3):
+            if n != r + 1:
+                s.timeout(n, r, 3).all_internal(n)           # propose timeout: prevote nil
+        for n in (1, 2, 3):
+            by = n % 3 + 1
+            s.a('Peer', n, V(r, 'pv', by, x if (r < 3 and by == r + 1) else NIL))
+            s.a('Byz', n, V(r, 'pv', 4, x if not (r < 3 and (by == r + 1 or n == r + 1)) else NIL))
+        for n in (1, 2, 3):
+            s.timeout(n, r, 5).all_internal(n)               # prevote-wait timeout: precommit nil
+        for n in (1, 2, 3):
+            by = n % 3 + 1
+            s.a('Peer', n, V(r, 'pc', by, NIL))
+            s.a('Byz', n, V(r, 'pc', 4, x))
+        for n in (1, 2, 3):
+            s.timeout(n, r, 7)                               # precommit-wait timeout: next round
+    return s.steps
+
+
+# per-scenario overrides of the scenario configuration and pseudo steps appended after TLC has followed the schedule
+CFG = {'many_rounds_then_restart': {'max_round': 4}}
+APPEND = {'many_rounds_then_restart': [['RealStartProbe', 2]]}
+
+ALL = {'many_rounds_then_restart': many_rounds_then_restart, 'lock_unlock': lock_unlock, 'relock_and_pol_proposal': relock_and_pol_proposal,
        'locked_without_proposal': locked_without_proposal, 'stale_polka_must_not_unlock': stale_polka_must_not_unlock}
